@@ -145,7 +145,7 @@ func ParseDatetime(s string) (Datetime, error) {
 	}
 
 	if len(s) == 0 {
-		return Datetime{time.Date(year, time.Month(month), int(day), 0, 0, 0, 0, time.UTC).UnixMilli()}, nil
+		return datetimeFromTime(time.Date(year, time.Month(month), int(day), 0, 0, 0, 0, time.UTC))
 	}
 
 	if s, err = expectChar(s, 'T'); err != nil {
@@ -221,6 +221,11 @@ func ParseDatetime(s string) (Datetime, error) {
 		int(hour), int(minute), int(second),
 		int(time.Duration(milli)*time.Millisecond), time.UTC).Add(-offset)
 
+	return datetimeFromTime(t)
+}
+
+// datetimeFromTime converts a parsed timestamp, rejecting anything outside the 64-bit millisecond range.
+func datetimeFromTime(t time.Time) (Datetime, error) {
 	// Check for boundary conditions before calling UnixMilli(), which has undefined behavior outside of these
 	// boundaries
 	if t.Before(minDatetime) || t.After(maxDatetime) {
